@@ -9,6 +9,22 @@ using namespace iora::core;
 using ms = std::chrono::milliseconds;
 int main(int argc, char **argv) {
   auto in = replay_io::load(argv[1]);
+  if (in.count("MODE") && in["MODE"] == "resched_stale_deadline") {
+    // Q10: after reschedule(id, 1000 ms) entry->deadline must be the new due time; drain() 100 ms later must CANCEL the timer, not fire it.
+    static TimingWheel w2(ms(10), 4, 2);
+    w2._accepting.store(true);
+    static int ran = 0;
+    auto id = w2.schedule(ms(50), [] { ran++; });
+    auto tR = std::chrono::steady_clock::now();
+    bool ok = w2.reschedule(id, ms(1000));
+    auto *e = w2._entryMap[id];
+    long long dl = std::chrono::duration_cast<ms>(e->deadline - tR).count();
+    std::this_thread::sleep_for(ms(100));
+    auto st = w2.drain(ms(1000));
+    printf("schedule(50 ms), reschedule(1000 ms) -> %d; entry->deadline is %lld ms after the reschedule; drain() 100 ms later: fired %zu cancelled %zu, handler ran %d times\n", (int)ok, dl, st.fired, st.cancelled, ran); fflush(stdout);
+    if (dl < 990 || ran > 0) { printf("REPLAY-FAIL: Q10: entry->deadline kept the OLD due time (%lld ms instead of 1000 ms): drain()/cascadeDown treat the timer as due - handler ran %d times, 900 ms before its deadline\n", dl, ran); fflush(stdout); _exit(1); }
+    printf("REPLAY-OK: deadline updated, timer cancelled by drain\n"); fflush(stdout); _exit(0);
+  }
   long long STALL = replay_io::i64(in["STALL"]), DELAY = replay_io::i64(in["DELAY"]);
   using clk = std::chrono::steady_clock;
   static TimingWheel w(ms(10), 16, 2);
